@@ -242,6 +242,7 @@ func runC09(c *Ctx) {
 }
 
 func runC10(c *Ctx) {
+	clockStall(c, 500)
 	corpusUDP(c)
 	r := c.R
 	srcs := []net.IP{{10, 1, 2, 3}, {10, 1, 2, 4}, net.ParseIP("2001:db8::7"), net.ParseIP("2001:db8::8"), net.ParseIP("::ffff:10.1.2.3")}
